@@ -57,7 +57,7 @@ func Run(c *core.Ctx, replay string) (*core.Result, error) {
 		progs = []*absprog.Prog{&rc.Prog}
 		seed = rc.Seed
 	} else {
-		progs = Programs(c.Seed, nProg, func(o *absprog.Opts, rng *rand.Rand) { o.TagOptions = true })
+		progs = Programs(c.Seed, nProg, func(o *absprog.Opts, rng *rand.Rand) { o.TagOptions = true; o.Pointers = rng.Intn(2) == 0 })
 	}
 	s, err := wire.Prepare(c.Sub("wire"), progs, false)
 	if err != nil {
